@@ -18,7 +18,12 @@ class Taint:
     def __init__(self, fn, is_source):
         self.fn = fn
         self.is_source = is_source
-        self.b = A.local_bindings(fn)
+        self.b = {k: list(v) for k, v in A.local_bindings(fn).items()}
+        # values appended / extended into a local list are definitions of that list
+        for n in A.walk_local(fn, include_self=False):
+            if isinstance(n, ast.Call) and isinstance(n.func, ast.Attribute) and n.func.attr in ("append", "extend", "insert", "add", "update") \
+                    and isinstance(n.func.value, ast.Name) and n.args:
+                self.b.setdefault(n.func.value.id, []).append((n, n.args[-1], "append"))
         self.tainted = set()       # local names
         self.obj_tainted = set()   # names of objects that had a tainted value stored into a field/element
         self._fix()
@@ -140,6 +145,19 @@ def mul_identity(chk, f, rule="FF3"):
         for tt, v in stores.items():
             if tt.startswith(f"{phi}.A[") and isinstance(v, ast.BinOp) and isinstance(v.op, ast.Mult):
                 scal = v.right if A.text(v.left) == tt else (v.left if A.text(v.right) == tt else None)
+        def through_path(e, depth=3):
+            """replace temporaries by what this very path stored into them"""
+            import copy
+            if depth <= 0 or e is None:
+                return e
+
+            class T(ast.NodeTransformer):
+                def visit_Name(self, n):
+                    if isinstance(n.ctx, ast.Load) and n.id in stores and n.id not in (me, num, am, phi):
+                        return through_path(copy.deepcopy(stores[n.id]), depth - 1)
+                    return n
+            return T().visit(copy.deepcopy(e))
+        fac, scal = through_path(fac), through_path(scal)
         ctext = " and ".join(("" if o else "not ") + A.text(t) for t, o in conds) or "always"
         # does this path know that the modulus is non-zero?
         nonzero = any((A.text(t) in (f"{am} > 0", f"{am} != 0", am) and o) or (A.text(t) in (f"{am} == 0", f"not {am}") and not o) for t, o in conds)
@@ -219,6 +237,14 @@ def check_division_pairing(chk, f, rule="FF4", exceptions=()):
         detail = ""
         if isinstance(den, ast.Attribute) and den.attr == "factor":
             paired = True   # factor := norm, tensor := tensor / factor
+        if isinstance(den, ast.Name):
+            # same with a temporary: nrm = T.norm(); obj.factor = nrm; obj.A[..] = T / nrm   — only for an object created in this function
+            for n in ast.walk(fn):
+                if isinstance(n, ast.Assign) and isinstance(n.targets[0], ast.Attribute) and n.targets[0].attr == "factor" and A.text(n.value) == dtext \
+                        and isinstance(n.targets[0].value, ast.Name):
+                    od = [v for s_, v, k in b.get(n.targets[0].value.id, []) if k == "assign"]
+                    if od and all(isinstance(v, ast.Call) and isinstance(v.func, ast.Name) and v.func.id[:1].isupper() for v in od):
+                        paired = True
         for n in ast.walk(fn):
             if isinstance(n, ast.Assign) and isinstance(n.targets[0], ast.Attribute) and n.targets[0].attr == "factor":
                 obj = A.text(n.targets[0].value)
